@@ -180,6 +180,32 @@ def engine_seed_check(chk):
         finally:
             bld.Engine = real_engine
         return dict(one=one, two=two)
+    # integer engine seeds (Python int, numpy integer scalar) = the corresponding PRNG key (concrete observation, bit for bit)
+    for n in (0, 7, np.int32(11), 2 ** 31 - 1):
+        def int_seed(n=n):
+            real_engine = bld.Engine
+            bld.Engine = RecEngine
+            try:
+                out = []
+                for sd in (n, jax.random.PRNGKey(int(n))):
+                    b = gs.EngineBuilder(1, 2)
+                    b.set_model(gs.DictInterface(lambda s: -0.5 * s["b"] ** 2))
+                    b.set_initial_values({"b": jnp.array(0.5)})
+                    b.add_kernel(gs.RWKernel(["b"]))
+                    b.set_epochs([gs.EpochConfig(gs.EpochType.INITIAL_VALUES, 1, 1, None), gs.EpochConfig(gs.EpochType.POSTERIOR, 2, 1, None)])
+                    b.set_engine_seed(sd)
+                    b.build()
+                    out.append((np.asarray(b.engine_seed).tolist(), np.asarray(RecEngine.last["seeds"]).tolist()))
+            finally:
+                bld.Engine = real_engine
+            want = np.asarray(jax.random.split(jax.random.PRNGKey(int(n)), 2)).tolist()
+            return out, want
+        r = chk.guarded(f"engine-seed-int:{int(n)}", f"set_engine_seed({n!r})", int_seed)
+        if r is not None:
+            (a, b_), want = r
+            if a != b_ or a[1] != want:
+                chk.violation("engine-seed-int", f"set_engine_seed({n!r}) is not equivalent to set_engine_seed(PRNGKey({int(n)}))",
+                              dict(reproduced=True, inputs=dict(seed=int(n), type=type(n).__name__), observed=dict(int_seed=a, key_seed=b_, split_of_key=want), note="concrete observation on the real builder"))
     k0, k1 = jax.random.PRNGKey(3), jax.random.PRNGKey(4)
     pc = jax.random.split(jax.random.PRNGKey(5), 2)
     pcs = np.stack([root_key("c0"), root_key("c1")])
